@@ -112,6 +112,8 @@ impl Callback for UnspentCsvDump {
             )?;
         }
 
+        // Make sure everything is written (and report write errors) before the file gets its final name
+        self.writer.flush()?;
         fs::rename(
             self.dump_folder.as_path().join("unspent.csv.tmp"),
             self.dump_folder.as_path().join(format!(
